@@ -112,3 +112,13 @@ Definition scalar_ok (t : ustring) (x : value) : bool :=
   end.
 Definition oracle_wfb (o : oracle) : bool :=
   forallb (fun e => match snd e with Ok x => scalar_ok (fst (fst e)) x | Err _ => true end) o.
+
+(* executable forms of wf_registry (soundness: Proofs/WfDecide.v) *)
+Fixpoint nodupb (l : list ustring) : bool :=
+  match l with [] => true | x :: r => negb (umem x r) && nodupb r end.
+Definition wf_clsb (k : cls) : bool :=
+  let names := map p_name (params_of k) in
+  nodupb names && negb (umem extra_name names) && negb (umem self_name names).
+Definition wf_registryb (reg : registry) : bool :=
+  nodupb (map c_name reg) && forallb wf_clsb reg && forallb (fun k => negb (ueqb (c_name k) (u "Path"))) reg.
+
